@@ -42,6 +42,11 @@ DevsOf(d) ==
          IN (IF HashAmbiguous(mine, c, a) \/ (pc[d] # "rewind" /\ HashAmbiguous(s, c, a))
              THEN {"LocateByHash"} ELSE {})
             \cup
+            (IF pc[d] = "push" /\ "PatchDropsAccepted" \in Deviations
+                /\ LastPos(s, c) # 0
+                /\ ~(Range(Evs(After(srv, LastPos(s, c)))) \subseteq Range(Evs(loc[d].events)))
+             THEN {"PatchDropsAccepted"} ELSE {})
+            \cup
             (IF pc[d] = "diff" /\ "MergeNoDedup" \in Deviations
                 /\ LastPos(mine, c) # 0 /\ LastPos(s, c) # 0
                 /\ LET lp == Evs(After(log[d], LastPos(mine, c)))
